@@ -136,7 +136,8 @@ def skel_table(skel, name, concrete):
                             out.append('ev|%s|%s' % (v, lit))
             elif re.match(r'^Dynamic%s(<C>)?$' % re.escape(name), it['self']):
                 fns = {f['name']: f for f in it['fns'] if 'name' in f}
-                for fn, f in fns.items():
+                for f in [x for x in it['fns'] if 'name' in x]:
+                    fn = f['name']
                     body = ''.join(f['stmts'])
                     if fn.startswith('set_') and fn.endswith('_data'):
                         base = fn[4:-5]
